@@ -58,7 +58,7 @@ for _t, _names in {
     "Edges": ["edges"],
     "FormatAlias": ["format_alias"],
     "Placeholders": ["placeholders"],
-    "BuilderWrites": ["writes_agree", "methods_covered", "setops_write_nothing"],
+    "BuilderWrites": ["writes_agree", "reads_agree", "methods_covered", "setops_write_nothing"],
     "Interval": ["interval_templates", "interval_labels", "interval_pattern", "interval_grid"],
 }.items():
     for _n in _names:
